@@ -30,16 +30,18 @@ KF_UNNAMED = "C20:Acl:empty_text_gives_unnamed_acl_whose_text_is_rejected"
 
 PLATFORMS = ("ios", "nxos", "asa")
 VOCAB = ["permit", "deny", "remark", "ip", "tcp", "6", "any", "host", "10.0.0.1", "0.0.0.255",
-         "10.0.0.0/24", "300.1.1.1", "10.0.0.0/33", "eq", "range", "neq", "80", "www", "65536", "-1",
+         "10.0.0.0/24", "300.1.1.1", "10.0.0.0/33", "eq", "range", "neq", "80", "135", "www", "65536", "-1",
          "/", "１２", "", "object-group", "log"]
 VOCAB_SMALL = ["permit", "remark", "tcp", "any", "host", "10.0.0.1", "0.0.0.255", "10.0.0.0/24", "eq",
-               "range", "80", "www", "65536", "１２", "object-group", "log"]
+               "range", "80", "135", "www", "65536", "１２", "object-group", "log"]
 CTORS = ["Ace", "Remark", "AceGroup", "Acl", "Acl_body", "Address", "AddressAg", "AddrGroup",
          "AddrGroup_body", "Port", "Protocol", "Option", "Wildcard"]
 
 VALID = {
     "Ace": ["10 permit tcp host 10.0.0.1 eq 179 10.0.0.0 0.0.0.3 eq www 443 log",
-            "deny udp any range 1 3 object-group G gt 65533", "permit 47 10.0.0.0/24 any"],
+            "deny udp any range 1 3 object-group G gt 65533", "permit 47 10.0.0.0/24 any",
+            # numbers whose NAME exists on one platform / version table only
+            "permit tcp any eq 3949 any eq 135 15001", "permit udp any any eq 521"],
     "Remark": ["10 remark some text, here", "remark x"],
     "AceGroup": ["10 permit ip any any\n20 remark t\ndeny tcp any any eq 80"],
     "Acl": ["ip access-list extended A\n permit ip any any\n remark t",
